@@ -109,7 +109,9 @@ def factory_src(case):
     for fd in case["steps"][0]["fields"]:
         src = P.render(fd["ty"])
         lines.append(("%s: %s" if fd["annot"] else "%s = %s") % (fd["name"], src))
-    return "def make(T):\n    class S(Structure):\n%s\n    return S\n" % "\n".join("        " + l for l in lines)
+    # the parameter SHADOWS a module-level name of the same spelling that means something else
+    return "T = Boolean\ndef make(T):\n    class S(Structure):\n%s\n    return S\n" % "\n".join(
+        "        " + l for l in lines)
 
 
 def step_src(i, step, alias_mode):
